@@ -47,7 +47,7 @@ def run_batch(ctx, n, with_model=True):
         cases.append((p, gen.render(p), envs))
     # corpus: identifiers that are names of the host language / of the library's own parameters, in every role
     L = lambda t: gen.lit_str(t, quote='"')
-    for name in gen.HOST_NAMES:
+    for name in gen.host_names():
         ab = ("ret", [(L("a"), "1"), (L("b"), "1"), (L("c"), "2")])
         progs = [gen.Program("e", None, [name], ab, {name: "any"}),
                  gen.Program("e", L("s"), ["uid"], ("if", ("cmp", ("id", name), ">", ("lit", gen.lit_int(3))), ab, ("else", ("ret", [(L("n"), "1")]))),
